@@ -539,8 +539,8 @@ func c11SignOCI(c *Ctx, W *ssa.Function) {
 		_, h := hasLabel(g, subs...)
 		c.Check(h, "gate/"+key, "effect-site gate: Signer.Sign is reachable only through — "+what, w.InstrPos(sign), "guards: "+summarizeLabels(g, 8))
 	}
-	need("arguments", "valid sign arguments", "EQ(call:ngo.", "(param:signer,", "#err,nil)")
-	need("repo-non-nil", "a non-nil repository", "NE(param:repo,nil)")
+	need("arguments", "valid sign arguments", "EQ(call:ngo.", "("+paramWhere(fi.Fn, isNamed("ngo.Signer"))+",", "#err,nil)")
+	need("repo-non-nil", "a non-nil repository", "NE("+paramWhere(fi.Fn, isNamed("ngo/registry.Repository"))+",nil)")
 	need("resolve", "a successful Resolve", "EQ("+desc(resolve)+"#err,nil)")
 	if merge != nil {
 		need("metadata-merge", "a successful metadata merge (reserved prefix / existing key refused)", "EQ("+desc(merge)+"#err,nil)")
